@@ -122,7 +122,7 @@ def coq_make(target=None, timeout=2400):
         return rc == 0, out
 
 
-def proof_gate(pid):
+def proof_gate(pid, tier="quick"):
     """Build the property's theorem file, check the pins and the assumptions."""
     res = {"ok": True, "failures": [], "obligations": 0, "discharged": 0, "theorems": [],
            "assumptions": {}}
@@ -176,6 +176,18 @@ def proof_gate(pid):
     if len(reports) != len(names):
         res["ok"] = False
         res["failures"].append(f"expected {len(names)} assumption reports, got {len(reports)}")
+    if tier == "thorough" and res["ok"]:
+        # independent re-check of the compiled property file and everything it depends on
+        rc, out = sh(["coqchk", "-silent", "-o", "-Q", "theories", "Lace", f"Lace.Properties.{pid}"], cwd=COQ, timeout=3000)
+        res["coqchk"] = "ok" if rc == 0 else "failed"
+        m = re.search(r"\* Axioms:(.*?)\n\s*\n", out, flags=re.S)
+        axioms = m.group(1).strip() if m else "?"
+        res["coqchk_axioms"] = axioms
+        bad = [k for k in ("type-in-type", "unsafe (co)fixpoints", "positivity is assumed")
+               if not re.search(re.escape(k) + r": <none>", out)]
+        if rc != 0 or axioms != "<none>" or bad:
+            res["ok"] = False
+            res["failures"].append(f"coqchk: rc={rc} axioms={axioms} flags={bad}")
     res["wall_s"] = time.time() - t0
     return res
 
@@ -290,6 +302,7 @@ def write_evidence(pid, tier, seed, gate, cov, wall, violations, assumptions=Non
         "theorems": gate.get("theorems", []),
         "assumptions_reported": gate.get("assumptions", {}),
         "proof_gate_failures": gate.get("failures", []),
+        "coqchk": gate.get("coqchk", "not run (thorough tier only)"), "coqchk_axioms": gate.get("coqchk_axioms", None),
     }
     coverage.update(cov)
     ev = {
@@ -359,7 +372,7 @@ def cmd_check(pid, tier, seed):
         if old.startswith(pid + "-"):
             os.remove(os.path.join(REPLAYS, old))
     ctx = Ctx(pid, tier, seed)
-    gate = proof_gate(pid)
+    gate = proof_gate(pid, tier)
     log(f"[{pid}] proof gate: {'ok' if gate['ok'] else 'FAILED'} "
         f"({gate['discharged']}/{gate['obligations']} theorems, {gate.get('wall_s', 0):.1f}s)")
     for f in gate["failures"]:
